@@ -161,7 +161,8 @@ def main():
         tmod._VERIF_SYNC = sync
     if position == "dies_at_claim":
         import inspect
-        if not have_hooks or "grader:decided" not in inspect.getsource(tmod.timeout):
+        # (the whole module: the give-up branch may live in a helper of timeout())
+        if not have_hooks or "grader:decided" not in inspect.getsource(tmod):
             write_obs({"scenario": sc, "have_hooks": have_hooks, "no_hook": "grader:decided", "notes": []})
             os._exit(0)
 
